@@ -12,7 +12,7 @@ import sys
 import time
 
 HERE = os.path.dirname(os.path.dirname(os.path.abspath(__file__)))
-WT = "/tmp/verif-audit-wt"
+WT = "/tmp/verif-audit-wt-%d" % os.getpid()
 
 
 def sh(cmd, **kw):
